@@ -55,11 +55,27 @@ REUSE = {}      # grid objects kept across trees: every other tree is evaluated 
 
 
 def reused(key, make, turn):
-    if turn % 2 == 0:
+    if turn % 3 == 0:
         return make()
     if key not in REUSE:
         REUSE[key] = make()
     return REUSE[key]
+
+
+OWNED = {}
+
+
+def owned(key, xs, lev, turn):
+    """every third tree a re-used grid object is handed containers the CALLER keeps and rewrites in place (the same list objects as in the
+    previous call, new content); otherwise fresh containers"""
+    if turn % 3 != 2:
+        return [list(xs)], [list(lev)]
+    if key not in OWNED:
+        OWNED[key] = ([[]], [[]])
+    cx, cl = OWNED[key]
+    cx[0][:] = list(xs)
+    cl[0][:] = list(lev)
+    return cx, cl
 
 
 def test_tree(rep, st, tier, rng, warp=False):
@@ -83,7 +99,10 @@ def test_tree(rep, st, tier, rng, warp=False):
             try:
                 grid = reused(('trap', a, b, bnd, mod, warp), lambda: G.GlobalTrapezoidalGrid(a=np.array([a]), b=np.array([b]), boundary=bnd, modified_basis=mod), st.get('_turn', 0))
                 with impl.quiet():
-                    grid.set_grid([np.array(xs)], [np.array(lev)])
+                    if st.get('_turn', 0) % 3 == 2:
+                        grid.set_grid(*owned(('trap', a, b, bnd, mod, warp), xs, lev, 2))
+                    else:
+                        grid.set_grid([np.array(xs)], [np.array(lev)])
                 w = [float(v) for v in grid.weights[0]]
                 with impl.quiet():
                     grid.set_grid([np.array(xs)], [np.array([0] + [1] * (n - 2) + [0])])
@@ -123,7 +142,7 @@ def test_tree(rep, st, tier, rng, warp=False):
             try:
                 grid = reused((name, a, b, warp), mk, st.get('_turn', 0))
                 with impl.quiet(), impl.watchdog(60):
-                    grid.set_grid([list(xs)], [list(lev)])
+                    grid.set_grid(*owned((name, a, b, warp), xs, lev, st.get('_turn', 0)))
                     if how == 'weights':
                         w = np.asarray(grid.weights[0], dtype=float)
                         got = [float(np.sum(w * np.asarray(xs) ** k)) for k in range(K + 1)]
